@@ -571,6 +571,45 @@ mod verif_layout {
         assert!(out.len() == l.len());
     }
 
+    // ---------------------------------------------------------------- documented panics (rejection)
+    // should_panic + a cover that must be UNSATISFIABLE after the call (unit.json:
+    // covers_must_be_unsat): the call never returns for an argument it documents as a panic.
+
+    #[kani::proof]
+    #[kani::should_panic]
+    #[kani::unwind(6)]
+    pub fn index_axis_rejects_invalid_axis_or_index() {
+        let l: NdLayout<2> = any_layout_small();
+        let (axis, index): (usize, usize) = (kani::any(), kani::any());
+        kani::assume(axis >= 2 || index >= l.size(if axis < 2 { axis } else { 0 }));
+        let _r = l.index_axis(axis, index);
+        kani::cover!(true, "index_axis returned for an out-of-range axis/index");
+    }
+
+    #[kani::proof]
+    #[kani::should_panic]
+    #[kani::unwind(6)]
+    pub fn split_rejects_invalid_axis_or_mid() {
+        let l: NdLayout<2> = any_layout_small();
+        let (axis, mid): (usize, usize) = (kani::any(), kani::any());
+        kani::assume(axis >= 2 || mid > l.size(if axis < 2 { axis } else { 0 }));
+        let _r = l.split(axis, mid);
+        kani::cover!(true, "split returned for an out-of-range axis/mid");
+    }
+
+    #[kani::proof]
+    #[kani::should_panic]
+    #[kani::unwind(6)]
+    pub fn permuted_rejects_non_permutation() {
+        let l: NdLayout<3> = any_layout_small();
+        let mut dims = [0usize; 3];
+        for i in 0..3 { let d: u8 = kani::any(); dims[i] = d as usize; }
+        // not a permutation of 0..3: some entry out of range or repeated
+        kani::assume(dims[0] >= 3 || dims[1] >= 3 || dims[2] >= 3 || dims[0] == dims[1] || dims[0] == dims[2] || dims[1] == dims[2]);
+        let _p = l.permuted(dims);
+        kani::cover!(true, "permuted returned for a non-permutation");
+    }
+
     // ---------------------------------------------------------------- broadcast / reshape
 
     #[kani::proof]
